@@ -396,6 +396,11 @@ impl Property for C10 {
                             frames_seen = wait_progress(&received);
                         }
                         let mut script_sent_values = 0usize;
+                        let tail_frame: Vec<u8> = {
+                            let e = make_entry(ns, &self.keys.authors[0], b"cut-off", Some(1), 7);
+                            let mm = MMsg { parts: vec![MPart::RangeItem(MItem { range: MRange { x: anchor.clone(), y: anchor.clone() }, values: vec![(e, ContentStatus::Complete)], have_local: true })] };
+                            encode_frame(Frame::Sync(mm.to_real()?))?
+                        };
                         for (i, fb) in frames_bytes.iter().enumerate() {
                             if let Some((k, kind)) = fail {
                                 if k == i && (is_bob || k > 0) {
@@ -422,7 +427,16 @@ impl Property for C10 {
                             // the stream ends inside a frame: inside the 4-byte length prefix (1, 2
                             // or 3 bytes) or inside the body, chosen by the shape of the case
                             let k = [1usize, 2, 3, 5, 7][(items.len() + 2 * reject.is_some() as usize + is_bob as usize + fail.map(|f| f.0).unwrap_or(0)) % 5];
-                            let _ = their_w.write_all(&[0u8, 0, 0, 9, 1, 2, 3][..k]).await;
+                            if (items.len() + is_bob as usize) % 2 == 0 {
+                                let _ = their_w.write_all(&[0u8, 0, 0, 9, 1, 2, 3][..k]).await;
+                            } else {
+                                // the peer was cut off while sending a frame that carries an entry: like the real
+                                // drivers it has counted the entry as sent, so a success reported by this side
+                                // would not mirror
+                                if their_w.write_all(&tail_frame[..k.min(tail_frame.len())]).await.is_ok() {
+                                    script_sent_values += 1;
+                                }
+                            }
                         }
                         let _ = their_w.shutdown().await;
                         drop(their_w);
